@@ -626,6 +626,12 @@ def _per_file_body(ctx, rep, f_files, fl, lv_in, lv_out):
         wopens = [(i, e) for i, e in opens if any(c in (open_mode(e.a) or "w") for c in "wax+")]
         ropens = [(i, e) for i, e in opens if (i, e) not in wopens]
         ok = bool(idx_mk) and bool(wopens) and min(idx_mk) < min(i for i, e in wopens)
+        if not idx_mk and wopens:
+            # no directory to create: the path established that the output path has no directory part
+            for t, pol in bp.atoms():
+                sx = show(t)
+                if "dirname" in sx and ((t[0] == "call" and not pol) or (t[0] == "compare" and "len(" in sx and not pol) or (t[0] == "compare" and t[1] == ("==",) and pol)):
+                    ok = True
         rep.ob("C16.parents-created-first", "anonymize_files", ok, "parent directories are created before the output file is opened (mkdirs at %s, output open at %s)" % (idx_mk, [i for i, e in wopens]), w, key="C16.parents-created-first|anonymize_files")
         okp = len(wopens) == 1 and wopens[0][1].a[2][0] == lv_out and len(ropens) == 1 and ropens[0][1].a[2][0] == lv_in
         rep.ob("C16.opens-the-pair", "anonymize_files", okp, "opens: read %s, write %s; expected exactly open(in_path,'r') and open(out_path,'w') of the current pair" % ([show(e.a)[:40] for i, e in ropens], [show(e.a)[:40] for i, e in wopens]), w, key="C16.opens-the-pair|anonymize_files")
